@@ -35,8 +35,11 @@ Definition userinfo_nonempty (auth : str) : bool :=
   end.
 Definition hostpart (auth : str) : str :=
   match rbreak_at ch_at auth with Some (_, h) => h | None => auth end.
+(* an empty host: nothing after the user-info, or a ':' right away - unless a bracket follows,
+   because the standard-library parser looks for '[' before ':' (gemini://:[::1]/ has host ::1:
+   a grey zone, left undecided) *)
 Definition host_empty (auth : str) : bool :=
-  match hostpart auth with [] => true | c :: _ => c =? ch_colon end.
+  match hostpart auth with [] => true | c :: r => (c =? ch_colon) && negb (mem ch_lbr r) end.
 Definition fragment_nonempty (rem : str) : bool :=
   match break_at ch_hash rem with Some (_, _ :: _) => true | _ => false end.
 
@@ -102,7 +105,8 @@ Definition must_accept (u : str) : option components :=
     | 91 :: r1 =>
         match break_at ch_rbr r1 with
         | Some (h6, after) =>
-            if forallb (fun c => is_hexdigit c || (c =? 58) || (c =? 46)) h6 then
+            if negb (match h6 with [] => true | _ => false end) &&
+               forallb (fun c => is_hexdigit c || (c =? 58) || (c =? 46)) h6 then
               match ip6 h6 with
               | None => match after with
                         | [] => Some (lower h6, [])
